@@ -17,8 +17,9 @@ cd $S/verif
 for d in seeded/$PAT/; do
   n=$(basename $d); id=${n%%-*}
   [ -f $d/patch.diff ] || continue
+  [ -f $d/RETIRED ] && continue
   git -C $S/repo apply "$(pwd)/${d}patch.diff" || { echo "$n: patch does not apply"; continue; }
-  out=$(./check $id quick --no-evidence 2>&1); rc=$?
+  out=$(./check $id quick --fast-fail 2>&1); rc=$?
   git -C $S/repo checkout -q -- .
   first=$(echo "$out" | grep -E 'violated' | head -1 | sed 's/^ *violated //' | cut -c1-200)
   python3 - "$n" "$id" "$rc" "$first" "$VERIF_COMMIT" <<'PY'
